@@ -121,7 +121,7 @@ func Property() runner.Property {
 				}
 				out = append(out, ctl.Scenario("C14", c, oracle(x)))
 			}
-			causes := map[string]string{"error": "injected API failure", "error+list": "injected API failure", "canceled": "context canceled", "nonlist": "Invalid type", "nonobjects": "Invalid type", "noaccessor": "Invalid type"}
+			causes := map[string]string{"error": "injected API failure", "error+list": "injected API failure", "canceled": "context canceled", "nonlist": "Invalid type", "status": "is not a list", "nonobjects": "Invalid type", "noaccessor": "Invalid type"}
 			for _, k := range ks {
 				for kind, cause := range causes {
 					for tn, tr := range trees {
@@ -138,6 +138,8 @@ func Property() runner.Property {
 				c    ctl.Cfg
 			}{
 				{"watch-error-once", ctl.Cfg{WatchFaults: map[int]fakeapi.WatchFault{1: W("error", 0)}}},
+				{"watch-error-wrapping-context.Canceled", ctl.Cfg{WatchFaults: map[int]fakeapi.WatchFault{1: W("error-canceled", 0)}}},
+				{"watch-close@0-then-error-wrapping-context.Canceled", ctl.Cfg{WatchFaults: map[int]fakeapi.WatchFault{1: W("close", 0), 2: W("error-canceled", 0)}}},
 				{"watch-error-forever", ctl.Cfg{DefaultWatch: W("error", 0)}},
 				{"watch-close@0", ctl.Cfg{WatchFaults: map[int]fakeapi.WatchFault{1: W("close", 0)}}},
 				{"watch-close@1", ctl.Cfg{WatchFaults: map[int]fakeapi.WatchFault{1: W("close", 1)}}},
